@@ -1,0 +1,11 @@
+//go:build !verif
+
+package app
+
+// no-op twins of the verification hooks (see app_verif.go, build tag verif)
+func verifAppStart(app *App)                   {}
+func verifAppStartReturn(app *App, err *error) {}
+func verifAppCall(app *App, op string, i int)  {}
+func verifAppFail(app *App, op string, i int)  {}
+func verifAppCloseErr(app *App, i int)         {}
+func verifAppCloseReturn(app *App)             {}
